@@ -5,9 +5,11 @@ package vfilter
 import (
 	"bytes"
 	"encoding/binary"
+	"fmt"
 	"math"
 	"net"
 	"testing"
+	"time"
 
 	"github.com/pion/transport/v3/vnet"
 	"pgregory.net/rapid"
@@ -55,7 +57,7 @@ func subsequence(sizes []int, got [][]byte) (string, int) {
 	return "", 0
 }
 
-const ruleC16 = "rapid-drawn loss chance from {0,1,5,50,95,99,100,101,1000,-1,-50} and uniform 0..100, stream of 0..2000 tagged chunks (sizes 4..1500) (UDP chunks, in a quarter of the cases TCP segments with drawn control bits) pushed through NewLossFilter in front of a recording sink NIC (in-package shim); 1 in 10 cases is a statistical case with 40000 chunks, during which further loss filters may be constructed every 1, 2, 7, 100 or 1000 chunks; oracle: chance 0 -> output == input, chance >= 100 -> nothing, always an in-order duplicate-free byte-identical subsequence whose chunks show the same String(), Tag(), Network() and addresses as on arrival, 0<chance<100 on 40000 chunks -> |dropped - N*p| <= 6*sqrt(N*p*(1-p)); non-trivial = stream of >= 100 chunks with mixed sizes; distinct by hash of chance + sizes"
+const ruleC16 = "rapid-drawn loss chance from {0,1,5,50,95,99,100,101,1000,-1,-50} and uniform 0..100, stream of 0..2000 tagged chunks (sizes 4..1500) (UDP chunks, in a quarter of the cases TCP segments with drawn control bits) pushed through NewLossFilter in front of a recording sink NIC (in-package shim), in a quarter of the cases with one or two more loss filters of chance 0 stacked in front of it; 1 in 10 cases is a statistical case with 40000 chunks, during which further loss filters may be constructed every 1, 2, 7, 100 or 1000 chunks; oracle: chance 0 -> output == input, chance >= 100 -> nothing, always an in-order duplicate-free byte-identical subsequence whose chunks show the same String(), Tag(), Network() and addresses as on arrival, 0<chance<100 on 40000 chunks -> |dropped - N*p| <= 6*sqrt(N*p*(1-p)); non-trivial = stream of >= 100 chunks with mixed sizes; distinct by hash of chance + sizes"
 
 func TestC16Loss(t *testing.T) {
 	r := ev.New("C16", "in-package", ruleC16)
@@ -107,29 +109,69 @@ func TestC16Loss(t *testing.T) {
 			got = append(got, ch.UserData())
 			gotChunks = append(gotChunks, ch)
 		})
+		var f vnet.NIC
 		f, err := vnet.NewLossFilter(sink, chance)
 		if err != nil {
 			t.Fatalf("NewLossFilter(%d): %v", chance, err)
+		}
+		// a quarter of the filters sit behind one or two further loss filters with chance 0
+		// (a lossy host behind a lossy link): those forward everything, so the stream that
+		// reaches the filter under test - and every rule about it - stays the same
+		if depth := rapid.SampledFrom([]int{0, 0, 0, 0, 0, 0, 1, 2}).Draw(t, "stackedBehind"); depth > 0 {
+			for i := 0; i < depth; i++ {
+				outer, err := vnet.NewLossFilter(f, 0)
+				if err != nil {
+					t.Fatalf("NewLossFilter: %v", err)
+				}
+				f = outer
+			}
+			c.Label("stacked-filters")
 		}
 		// other loss filters may be constructed while this one carries traffic (every network
 		// under test builds its own): the stream of this filter stays what it is
 		if others > 0 {
 			c.Label("other-filters-constructed-mid-stream")
 		}
-		for i, sz := range sizes {
-			if others > 0 && i%others == 0 {
-				if _, err := vnet.NewLossFilter(sink, 50); err != nil {
-					t.Fatalf("NewLossFilter: %v", err)
+		streamDone := make(chan string, 1)
+		go func() {
+			msg := ""
+			defer func() { streamDone <- msg }()
+			for i, sz := range sizes {
+				if others > 0 && i%others == 0 {
+					if _, err := vnet.NewLossFilter(sink, 50); err != nil {
+						msg = fmt.Sprintf("NewLossFilter: %v", err)
+						return
+					}
+				}
+				ch := vnet.VerifNewChunkUDP(srcAddr, dstAddr, tagged(i+1, sz))
+				if tcp {
+					ch = vnet.VerifNewChunkTCP(tcpSrc, tcpDst, uint8(1+(i*7)%31), tagged(i+1, sz))
+				}
+				if !stat {
+					shown[i+1] = [3]string{ch.String(), ch.Tag(), ch.Network()}
+				}
+				func() {
+					defer func() {
+						if p := recover(); p != nil && msg == "" {
+							msg = fmt.Sprintf("C16: LossFilter.onInboundChunk panicked: %v", p)
+						}
+					}()
+					vnet.VerifInbound(f, ch)
+				}()
+				if msg != "" {
+					return
 				}
 			}
-			ch := vnet.VerifNewChunkUDP(srcAddr, dstAddr, tagged(i+1, sz))
-			if tcp {
-				ch = vnet.VerifNewChunkTCP(tcpSrc, tcpDst, uint8(1+(i*7)%31), tagged(i+1, sz))
+		}()
+		select {
+		case msg := <-streamDone:
+			if msg != "" {
+				t.Fatalf("%s", msg)
 			}
-			if !stat {
-				shown[i+1] = [3]string{ch.String(), ch.Tag(), ch.Network()}
-			}
-			ev.NoPanic(t, "LossFilter.onInboundChunk", func() { vnet.VerifInbound(f, ch) })
+		case <-time.After(10 * time.Second):
+			// (a machine that stood still shows in the stall detector's VERIF-INFRA line, which
+			// takes precedence in the driver)
+			t.Fatalf("C16: chance %d: onInboundChunk has not returned for 10 s (%d chunks pushed so far through %s): the datagram is neither forwarded nor dropped", chance, len(got), map[bool]string{true: "stacked filters", false: "one filter"}[c.Has("stacked-filters")])
 		}
 		if msg, at := subsequence(sizes, got); msg != "" {
 			t.Fatalf("C16: chance %d: %s (output position %d)", chance, msg, at)
